@@ -282,6 +282,12 @@ def main(argv=None):
     tier = args.tier
     os.environ['VERIF_TIER_EFFECTIVE'] = tier
     budget = args.budget or float(os.environ.get('VERIF_BUDGET_S') or TIER_BUDGET[tier])
+    try:        # replay files of earlier runs of this property are stale now
+        for fn in os.listdir(os.path.join(ROOT, 'replays')):
+            if fn.startswith(prop.ID + '-') and fn.endswith('.json'):
+                os.unlink(os.path.join(ROOT, 'replays', fn))
+    except OSError:
+        pass
     print('# %s tier=%s seed=%d budget=%.0fs src=%s' % (prop.ID, tier, base, budget, SRC_ROOT))
     sys.stdout.flush()
     t_start = time.monotonic()
